@@ -54,6 +54,11 @@ CHECKS = {
          "TLC checks on the scan model that every mutually exclusive pair ends bonded symmetrically and every isolated cysteine free, for all graphs in the bound and in scan order; each graph is realised with real coordinates (ALA-CYS-ALA chains placed rigidly, relation recomputed from the written file), run end to end, and the observed ss_bonded partner, CYX naming and HG presence are judged by TLC; axis-parallel pairs at 2.0..2.6 A across grid lines cover distances around the limit in any frame.",
          "Geometric realisation uses a 0.25 A margin except for the explicit border cases; quick covers N <= 4 (half of the 4-graphs) and two file orders; chain placement and projection are harness code.",
          "DESIGN.md 6/C13", ["SSBridge", "SSBridgeTrace"]),
+ "C06": ("model_checking",
+         "TLA+ spec Titration (the three decisions of apply_pka_values per residue with the guard table): TLC exhaustive over all residue cells with Supported extracted from the current force-field files; every cell replayed through the real pipeline with an injected pKa table; TLC trace validation (TitrationTrace); real-PROPKA pH sweeps judged for non-increasing charge",
+         "The decision space (position x group x force field x pH side per key) is finite and enumerated completely: TLC checks WithinSupport on the guard table against Supported (re-extracted from the DAT/names files on every run by naming the state in the input), and each cell is executed on a generated tripeptide; applied patches, warnings, final force-field name and presence in the output are judged by TLC (ProtonatedIffBelow, UnsupportedKeepsDefault, UnsupportedWarns, NoResidueDropped); PROPKA sweeps over pH 0..14 check charge monotonicity, no residue dropped and terminus titration.",
+         "pKa table injection replaces main.run_propka at run time; terminus keys are supplied in the form apply_pka_values expects; sweeps use three to five inputs; user-supplied force fields are outside the property's quantifier.",
+         "DESIGN.md 6/C06", ["Titration", "TitrationTrace"]),
 }
 
 NOT_YET = "check not built yet (build round in progress); planned per DESIGN.md section 6"
